@@ -134,6 +134,37 @@ Example C02deep_ccp_nonvacuous :
   sem All ex_world ex_ccp [4] 10 = Done 9 [(8%N, [5; 9]); (8%N, [5; 8]); (8%N, [5; 7])].
 Proof. vm_compute. repeat split. Qed.
 
+(* ---- rounds compose ----
+   `refines` (no overflow at all in the input run, wrapping output run) does not compose: the output of a pass
+   may overflow where its input did not (merged multiplications; before fix 8c7c465 also merged additions -
+   finding C02-merged-constants-wrap-then-compare was exactly a second round trusting the first).  What the
+   passes preserve, and what the next round needs, is freedom from overflow in + and - (mode Add):
+   refines_add is transitive, follows from the input being overflow-free, and implies `refines`. *)
+Theorem C02deep_sem_weaken : forall m m' w f args fuel v tr,
+  mode_le m m' -> sem m' w f args fuel = Done v tr -> sem m w f args fuel = Done v tr.
+Proof. exact sem_weaken. Qed.
+Theorem C02deep_refines_add_trans : forall w f1 f2 f3,
+  refines_add w f2 f1 -> refines_add w f3 f2 -> refines_add w f3 f1.
+Proof. exact refines_add_trans. Qed.
+Theorem C02deep_refines_add_refines : forall w f' f, refines_add w f' f -> refines w f' f.
+Proof. exact refines_add_refines. Qed.
+
+Theorem C02deep_dce_preserves_mode : forall m w f args fuel v tr,
+  wf_func f = true -> sem m w f args fuel = Done v tr -> sem m w (dce f) args fuel = Done v tr.
+Proof. exact dce_preserves_mode. Qed.
+Theorem C02deep_ccp_preserves_add_partial : forall w f f' fl,
+  wf_func f = true -> ccp f = Some (f', fl) -> fst fl = false -> refines_add w f' f.
+Proof. exact (ccp_gen_preserves_add ver_now). Qed.
+Theorem C02deep_lvn_preserves_add : forall w f, wf_func f = true -> refines_add w (lvn f) f.
+Proof. exact lvn_preserves_add. Qed.
+
+(* one round ccp; lvn; dce and any number of them: the hypotheses on the intermediate functions are decidable
+   and evaluated by the check for every function it sees *)
+Theorem C02deep_round : forall w f f1 fl,
+  wf_func f = true -> ccp f = Some (f1, fl) -> fst fl = false -> wf_func f1 = true -> wf_func (lvn f1) = true ->
+  refines_add w (dce (lvn f1)) f.
+Proof. exact round_preserves. Qed.
+
 (* ---- local value numbering (local_value_numbering.rs): full strength ---- *)
 Theorem C02deep_lvn_preserves : forall w f, wf_func f = true -> refines w (lvn f) f.
 Proof. exact lvn_preserves. Qed.
@@ -174,3 +205,10 @@ Print Assumptions C02deep_ccp_repaired_on_old2_witness.
 Print Assumptions C02deep_ccp_two_rounds_witness.
 Print Assumptions C02deep_lvn_preserves.
 Print Assumptions C02deep_then_dce.
+Print Assumptions C02deep_sem_weaken.
+Print Assumptions C02deep_refines_add_trans.
+Print Assumptions C02deep_refines_add_refines.
+Print Assumptions C02deep_dce_preserves_mode.
+Print Assumptions C02deep_ccp_preserves_add_partial.
+Print Assumptions C02deep_lvn_preserves_add.
+Print Assumptions C02deep_round.
